@@ -45,11 +45,12 @@ import (
 var labelNames = []string{"__name__", "a", "b", "c", "d"} // id = index; byte order = id order
 
 const (
-	nRawNames  = 3  // m0..m2  -> name ids 0..2
-	nRuleNames = 6  // r0..r5  -> name ids 10..15
-	ruleBase   = 10 //
-	nVals      = 4  // x0..x3
-	encOff     = int64(1) << 20
+	nRawNames  = 3              // m0..m2  -> name ids 0..2
+	nRuleNames = 6              // r0..r5  -> name ids 10..15
+	ruleBase   = 10             //
+	nVals      = 4              // x0..x3
+	encOff     = int64(1) << 20 // shift of expression constants
+	sampleOff  = int64(1) << 23 // shift of sample values
 	wallBase   = int64(50_000_000)
 )
 
@@ -529,9 +530,10 @@ func (s *sut) dump() []seriesDump {
 
 // ---------- printing ----------
 type printer struct {
-	tbl   map[string]int
-	lsets []lset
-	s     *sut
+	tbl      map[string]int
+	lsets    []lset
+	s        *sut
+	overflow bool // a value / index exceeded the transport range: the case is dropped (counted)
 }
 
 func (p *printer) idx(l lset) int {
@@ -583,11 +585,15 @@ func (p *printer) encVal(v float64) int64 {
 	if value.IsStaleNaN(v) {
 		return 0
 	}
-	if v != math.Trunc(v) || math.IsNaN(v) || math.IsInf(v, 0) || math.Abs(v) >= float64(encOff) {
+	if v != math.Trunc(v) || math.IsNaN(v) || math.IsInf(v, 0) {
 		p.s.violf("non-integer sample value %v", v)
-		return 2*encOff - 1
+		return 2*sampleOff - 1
 	}
-	return enc(int64(v))
+	if math.Abs(v) >= float64(sampleOff) {
+		p.overflow = true
+		return 2*sampleOff - 1
+	}
+	return int64(v) + sampleOff
 }
 
 func b2i(b bool) int64 {
@@ -598,27 +604,27 @@ func b2i(b bool) int64 {
 }
 
 // pack one Append call / sample into one primitive integer:
-// t (28 bits) | value+2^20, 0 = marker (21 bits) | error class (2 bits) | label set index
+// t (28 bits) | value+2^23, 0 = marker (24 bits) | error class (2 bits) | label set index (9 bits)
 func (p *printer) pack(li int, code int, v int64, t int64) int64 {
 	if t < 0 || t >= 1<<28 {
 		p.s.violf("timestamp %d outside the transport range", t)
 		t = 1<<28 - 1
 	}
-	if v < 0 || v >= 1<<21 {
+	if v < 0 || v >= 1<<24 {
 		p.s.violf("value outside the transport range")
-		v = 1<<21 - 1
+		v = 1<<24 - 1
 	}
-	if li < 0 || li >= 1<<11 {
-		p.s.violf("label set index outside the transport range")
-		li = 1<<11 - 1
+	if li < 0 || li >= 1<<9 {
+		p.overflow = true
+		li = 1<<9 - 1
 	}
-	return t | v<<28 | int64(code&3)<<49 | int64(li)<<51
+	return t | v<<28 | int64(code&3)<<52 | int64(li)<<54
 }
 
 func (p *printer) op(o op) string {
 	switch o.Kind {
 	case "raw":
-		v := enc(o.V)
+		v := o.V + sampleOff
 		if o.Stale {
 			v = 0
 		}
@@ -725,7 +731,28 @@ func (g *genState) genExpr() exprSpec {
 }
 
 func (g *genState) genRule() ruleSpec {
-	return ruleSpec{Name: ruleBase + g.r.Intn(nRuleNames), Labels: g.genLabels(), E: g.genExpr()}
+	return fixDeps(g.r, ruleSpec{Name: ruleBase + g.r.Intn(nRuleNames), Labels: g.genLabels(), E: g.genExpr()})
+}
+
+// fixDeps keeps the values bounded: a rule reads raw metrics, rules with a smaller name, or
+// itself (then only with factor +-1 and without aggregation), so that no multiplicative cycle
+// exists.  Position in the group / which group is unconstrained, so rules still read results
+// of earlier rules (same timestamp) and of later rules or other groups (previous evaluation).
+func fixDeps(r *gen.Rand, rs ruleSpec) ruleSpec {
+	if rs.E.Name < ruleBase {
+		return rs
+	}
+	if rs.E.Name > rs.Name {
+		rs.E.Name = ruleBase + r.Intn(rs.Name-ruleBase+1)
+	}
+	if rs.E.Name == rs.Name {
+		rs.E.By = false
+		rs.E.ByMask = 0
+		if rs.E.Mul != 1 && rs.E.Mul != -1 {
+			rs.E.Mul = 1
+		}
+	}
+	return rs
 }
 
 func cloneRules(rs []ruleSpec) []ruleSpec { return append([]ruleSpec(nil), rs...) }
@@ -748,6 +775,7 @@ func (g *genState) newGroupOp(gid int) op {
 		} else if i == 0 && n > 1 && r.Chance(1, 5) {
 			rs[i].E.Name = ruleBase + r.Intn(nRuleNames)
 		}
+		rs[i] = fixDeps(r, rs[i])
 	}
 	var off int64
 	if r.Chance(1, 5) {
@@ -777,6 +805,7 @@ func (g *genState) reload() []op {
 		nr := g.genRule()
 		if len(rs) > 0 && r.Bool() {
 			nr.E.Name = rs[r.Intn(len(rs))].Name
+			nr = fixDeps(r, nr)
 		}
 		at := r.Intn(len(rs) + 1)
 		rs = append(rs[:at], append([]ruleSpec{nr}, rs[at:]...)...)
@@ -793,6 +822,7 @@ func (g *genState) reload() []op {
 		d := rs[r.Intn(len(rs))]
 		if r.Bool() {
 			d.E = g.genExpr()
+			d = fixDeps(r, d)
 		}
 		at := r.Intn(len(rs) + 1)
 		rs = append(rs[:at], append([]ruleSpec{d}, rs[at:]...)...)
@@ -800,6 +830,7 @@ func (g *genState) reload() []op {
 	case k == 5:
 		i := r.Intn(len(rs))
 		rs[i].E = g.genExpr()
+		rs[i] = fixDeps(r, rs[i])
 		return []op{g.load(gid, rs, off, limit, "change-expr")}
 	case k == 6:
 		i := r.Intn(len(rs))
@@ -1168,6 +1199,12 @@ func main() {
 		for i, l := range p.lsets {
 			tb[i] = packLset(l)
 		}
+		if p.overflow {
+			// values grew beyond the transport range (long multiplicative rule chains): not judged
+			meta.Hit("dropped-transport-range")
+			meta.Case(id, desc{Shape: "dropped-transport-range", Corpus: isCorpus, Ops: ops, Viol: s.viol})
+			return
+		}
 		cf.Add(fmt.Sprintf("mkCase %d\n  %s\n  %s\n  %s\n  %s", id, ints(tb...), list(opStr), list(evStr), list(stStr)))
 		key := strings.Join(opStr, "")
 		if markersOK > 0 && reloads > 0 && !distinct[key] {
@@ -1186,7 +1223,7 @@ func main() {
 		runCase(id, ops, true)
 		id++
 	}
-	n := f.Count(84, 1800)
+	n := f.Count(66, 1800)
 	for i := 0; i < n; i++ {
 		runCase(id, genCase(gen.Fork(f.Seed, i), f.Tier), false)
 		id++
